@@ -876,7 +876,15 @@ func (u *Unit) evalSpecCall(env *SpecEnv, c *ECall) Value {
 			resIdx, fname = n, name[:i]
 		}
 	}
-	if fn := u.V.repoFuncByShortName(u.Pkg, fname); fn != nil && resIdx < fn.Signature.Results().Len() {
+	// names in a contract are resolved in the package the contract was written in (a callee's
+	// contract evaluated at a call site in another package must not pick up the caller's functions)
+	spkg := u.Pkg
+	if env.cf != nil {
+		if sp, ok := u.V.SSAPkgs[env.cf.PkgPath]; ok {
+			spkg = sp
+		}
+	}
+	if fn := u.V.repoFuncByShortName(spkg, fname); fn != nil && resIdx < fn.Signature.Results().Len() {
 		if fc := u.V.contractFor(fn); fc != nil && fc.Function {
 			var args []Value
 			for i := range c.Args {
